@@ -157,6 +157,7 @@ End Proofs.
 (** ---- soundness of the decidable [nok] evaluated on implementation outputs ---- *)
 
 Definition nuts_property_holds (c : ncase) : Prop :=
+  nagree c = true /\
   match nc_impl c with
   | NIBadInit => nc_tinf c = true
   | NIChain l =>
@@ -175,7 +176,9 @@ Qed.
 
 Theorem nok_sound : forall c, nok c = true -> nuts_property_holds c.
 Proof.
-  intros c H. unfold nok in H. unfold nuts_property_holds. destruct (nc_impl c) as [|l]; auto.
+  intros c H. unfold nok in H. unfold nuts_property_holds.
+  apply andb_true_iff in H. destruct H as [HAG H]. split; [exact HAG|].
+  destruct (nc_impl c) as [|l]; auto.
   apply andb_true_iff in H. destruct H as [H HX].
   apply andb_true_iff in H. destruct H as [HT HL].
   split; [destruct (nc_tinf c); auto; discriminate|].
